@@ -65,6 +65,11 @@ def operand_opcodes(F, vm, sb):
 
 
 def run(F, R, ctx):
+    _run(F, R, ctx)
+    rest_collapse_rule(F, R)
+
+
+def _run(F, R, ctx):
     R.rule("C01.a", "EMIT ⊆ HANDLED: every opcode constructed by the code that builds executables (compiler::*, "
                     "hand-assembled builtins, the JIT trampoline; compile-time-dead branches pruned) has an explicit arm "
                     "in VmCore::vm's dispatch, or is consumed as an operand by another arm's helper (closure headers), or "
@@ -260,3 +265,134 @@ def flag_rule(F, R):
                "%s (%s) no longer reads SemanticInformation.%s: it can substitute / specialise on a definition that the "
                "program assigns later (from inside a procedure, a let or a branch), so a variable stops evaluating to the "
                "value most recently assigned to it" % (fn.short(), what, flag), fn.loc(), sample=True)
+
+
+def _back(fn):
+    """backward value-flow maps of a function: mv[dest] -> sources, der[dest] -> (source, op, operand index)"""
+    mv, der = {}, {}
+    for b in fn.blocks:
+        for e in b["e"]:
+            if e[0] == "mv":
+                mv.setdefault(e[1], set()).update(lib.TOK.findall(lib._norm(e[2])))
+            elif e[0] == "der" and len(e) >= 5:
+                der.setdefault(e[1], set()).update((x, e[3], e[4]) for x in lib.TOK.findall(lib._norm(e[2])))
+    return mv, der
+
+
+def _lookup(m, tok):
+    out = set(m.get(tok, ()))
+    base = tok.split(".")[0]
+    if base != tok:
+        out |= set(m.get(base, ()))
+    else:
+        for k, v in m.items():
+            if k.startswith(tok + "."):
+                out |= v
+    return out
+
+
+def _mv_roots(mv, tok):
+    seen, st = set(), [tok]
+    while st:
+        x = st.pop()
+        if x in seen:
+            continue
+        seen.add(x)
+        st.extend(_lookup(mv, x))
+    return seen
+
+
+def _root_sigs(fn, mv, tok, depth=2):
+    """roots of a value through moves; a root that is the result of a call is named by the callee and the roots of its
+    arguments, so that two calls of the same accessor on the same receiver (closure.arity() twice) denote the same value"""
+    dests = getattr(fn, "_calldest", None)
+    if dests is None:
+        dests = {}
+        for i, b in fn.calls():
+            d = re.match(r"_\d+", b.get("dest") or "")
+            if d:
+                dests[d.group(0)] = b
+        fn._calldest = dests
+    out = set()
+    for r in _mv_roots(mv, tok):
+        base = r.split(".")[0]
+        if base in dests and depth > 0 and not _lookup(mv, r):
+            b = dests[base]
+            argsig = []
+            for a in b["args"]:
+                for x in lib.TOK.findall(lib._norm(a)):
+                    argsig.extend(sorted(_root_sigs(fn, mv, x, depth - 1)))
+            out.add("call:%s(%s)" % (lib.short_name(b["callee"]), ",".join(sorted(set(argsig)))))
+        elif not _lookup(mv, r):
+            out.add(r)
+    return out
+
+
+def rest_collapse_rule(F, R):
+    R.rule("C01.v", "rest-argument collapse keeps the argument count consistent (all call paths for variadic closures, sibling "
+                    "agreement): wherever the surplus `1 + n − A` operands are drained off the stack and pushed back as one "
+                    "SteelVal::ListV, the code after the push assigns the callee's arity A (the subtrahend of the surplus "
+                    "computation) to a count that outlives the collapse — otherwise the new frame's base is computed from "
+                    "the call-site count n although the stack now holds A values")
+    sites = 0
+    for n, fn in sorted(F.fns.items()):
+        if not n.startswith("steel::steel_vm::"):
+            continue
+        aggs = [i for i, _, e in fn.events("agg") if e[1] == "SteelVal" and e[2] == "ListV"]
+        drains = [i for i in fn.call_blocks(r"Vec<T,A>\}::drain$")]
+        if not aggs or not drains:
+            continue
+        mv, der = _back(fn)
+        avoid = set()
+        if n.endswith("{impl VmCore}::vm"):
+            vm, sb = shared.vm_dispatch(F)
+            avoid = set(vm.dominators()[sb])
+        for a in aggs:
+            # the drain feeding this aggregate: the nearest drain from which the aggregate is reachable
+            feeding = [d for d in drains if a in fn.reachable_from([d], avoid=avoid)]
+            if not feeding:
+                continue
+            d = max(feeding)
+            blk = fn.blocks[d]
+            if len(blk["args"]) < 2:
+                continue
+            # backward slice of the range start
+            subs = set()
+            seen, st = set(), list(lib.TOK.findall(blk["args"][1]))
+            while st:
+                x = st.pop()
+                if x in seen:
+                    continue
+                seen.add(x)
+                st.extend(_lookup(mv, x))
+                for (src, op, idx) in _lookup(der, x):
+                    if op.startswith("Sub") and idx == 1:
+                        subs.add(src)
+                    st.append(src)
+            # A = a subtrahend that is not itself computed by arithmetic
+            leaves = []
+            for s_ in subs:
+                roots = _mv_roots(mv, s_)
+                if not any(_lookup(der, r) for r in roots):
+                    leaves.append(_root_sigs(fn, mv, s_))
+            if not leaves:
+                continue  # not the `1 + n - A` shape: some other use of drain + ListV
+            sites += 1
+            push = [i for i in fn.call_blocks(r"Vec<T,A>\}::push$") if i in fn.reachable_from([a], avoid=avoid) or i == a]
+            region = fn.reachable_from([s_ for p_ in push for s_ in fn.succ(p_)] or fn.succ(a), avoid=avoid)
+            found = False
+            for b in region:
+                for e in fn.blocks[b]["e"]:
+                    if e[0] in ("mv", "st"):
+                        srcs = lib.TOK.findall(lib._norm(e[2]))
+                        for x in srcs:
+                            rx = _root_sigs(fn, mv, x)
+                            if any(rx & lv for lv in leaves):
+                                found = True
+            R.inst("C01.v", "%s / count reset to the callee's arity after the rest-argument collapse" % fn.short(), found,
+                   "%s collapses the surplus arguments of a variadic call into one list but nothing after the push "
+                   "re-assigns the argument count from the callee's arity: the frame base is then computed from the "
+                   "call-site count, so when the rest list is empty or has two or more elements the parameters read the "
+                   "wrong stack slots (stale values of the previous activation)" % fn.short(),
+                   fn.loc(fn.blocks[a].get("line")), sample=True)
+    R.floor("C01.v", "rest-argument collapse sites", sites, 4)
